@@ -91,7 +91,7 @@ func c04Check(in c04Input) (key, what string) {
 	r := rand.New(rand.NewSource(in.Seed))
 	marks := c04Decorate(r, f, in.Dens, in.Kinds)
 	// known finding class (recorded separately): "\n" as the first thing emitted in the file
-	if len(f.Decs.Start) > 0 && f.Decs.Start[0] == "\n" {
+	if firstEmissionIsNewline(f) {
 		return "", ""
 	}
 	// (d) listing helpers
@@ -150,8 +150,10 @@ func c04Check(in c04Input) (key, what string) {
 		}
 	}
 	// (b)
-	if tokString(toks) != tokString(ptoks) {
-		return "c04-tokens", "token stream of the decorated print differs from the undecorated print"
+	// (go/format sorts the specs of an import group; a "\n" decoration can split a group, so the
+	// decorated print may order import specs differently -- printer behaviour, assumption P)
+	if tokString(toks) != tokString(ptoks) && !importOrderOnly(ptoks, toks) {
+		return "c04-tokens", "token stream of the decorated print differs from the undecorated print: " + tokDiff(ptoks, toks)
 	}
 	// (c) positions in the restored ast
 	rs, af, err, pm := restoreDst(f)
